@@ -8,14 +8,16 @@ from decaylib import F, is_finite
 from oracle import DatasetView, frac_str, parse_frac
 
 NEEDS_DATASET = False
-TARGETS = ["RdVerif.Props.C05"]
+TARGETS = ["RdVerif.Props.C05", "RdVerif.Props.C05Float"]
 THEOREMS = ["RdVerif.C05.sympy_tables_eq_spec", "RdVerif.C05.float_tables_close_to_spec", "RdVerif.C05.float_sympy_same_units",
             "RdVerif.C05.kinds_disjoint", "RdVerif.C05.avogadro_ok", "RdVerif.C05.roundtrip_unit", "RdVerif.C05.ratio_law",
             "RdVerif.C05.roundtrip_activity", "RdVerif.C05.roundtrip_mass", "RdVerif.C05.roundtrip_moles",
-            "RdVerif.C05.kinds_tied", "RdVerif.C05.refusals"]
+            "RdVerif.C05.kinds_tied", "RdVerif.C05.refusals", "RdVerif.C05.float_roundtrip_within"]
 PARTIAL = {
-    "roundtrip_float_partial": "'to within a few ulp' for the double-precision class is checked for every nuclide x unit against "
-                               "the exact rational model (<= 8 ulp), not proved",
+    "roundtrip_float (floating-point model)": "'to within a few ulp' for the double-precision class: under the standard model (each "
+                               "of the <= 6 operations of a round trip commits relative error <= 2^-53) the result is within 3.5 ulp "
+                               "(float_roundtrip_within); that the library's round trips consist of at most six operations on the same "
+                               "stored factors is read off the source; every nuclide x unit is compared with the exact model (<= 8 ulp)",
 }
 ASSUMPTIONS = ["IEEE-754 double arithmetic in CPython/NumPy; SymPy rational arithmetic exact"]
 ULP = Fraction(1, 2**52)
